@@ -277,18 +277,19 @@ theorem C05_ci_loaded_is_normal_partial (doc : PyVal) (ci : ComposeInfo) (h : Le
    Legacy.deserialize_wellKeyed doc ci h⟩
 
 /--
-**idempotent (partial: hypotheses `UidsDistinct` and "the writer accepts it").**  A compose description loaded from a
-document of any version, once the current writer has written it as document `j`: the *current* reader (`CI.deserialize`,
-no legacy branch: conversion happens exactly once) — and therefore also the legacy-aware one — reads `j` back as the normal
-form of the loaded object (children in sorted order, nothing else changes: `C01_norm_*`), and writing that again gives
-the very same document.  `UidsDistinct` is decidable; without it the writer refuses (`C01_duplicate_uids_agree`).
+**idempotent (partial: hypothesis "the writer accepts it").**  A compose description loaded from a document of any
+version, once the current writer has written it as document `j`: the *current* reader (`CI.deserialize`, no legacy
+branch: conversion happens exactly once) — and therefore also the legacy-aware one — reads `j` back as the normal form of
+the loaded object (children in sorted order, nothing else changes: `C01_norm_*`), and writing that again gives the very
+same document.  No hypothesis on UIDs is needed: the loaded object is well keyed (`C05_ci_loaded_is_normal_partial`) and a
+successful write of a well-keyed forest implies distinct UIDs (C01).
 -/
 theorem C05_ci_idempotent_partial (doc j : PyVal) (x : ComposeInfo) (h : Legacy.deserialize doc = .ok x)
-    (hu : UidsDistinct x) (hs : serialize x = .ok j) :
+    (hs : serialize x = .ok j) :
     CI.deserialize j = .ok x.norm ∧ Legacy.deserialize j = .ok x.norm ∧ serialize x.norm = .ok j := by
   have hk := Legacy.deserialize_wellKeyed doc x h
-  have h1 := C01_readback x j hk hu hs
-  exact ⟨h1, Legacy.deserialize_of_deserialize j _ h1, C01_fixpoint x j hk hu hs⟩
+  have h1 := C01_readback x j hk hs
+  exact ⟨h1, Legacy.deserialize_of_deserialize j _ h1, C01_fixpoint x j hk hs⟩
 
 /-- **faithful, `product` section (≤ 0.3)**: what is read has `internal = False`, whatever the section says -/
 theorem C05_ci_faithful_product_not_internal (holder : PyVal) (r : Release) (h : Legacy.releaseDe03 holder = .ok r) :
